@@ -74,18 +74,24 @@ func (scope BlockScope) Clear() {
 type NodeScope struct {
 	inlineTables InlineTableMap
 	aliases      AliasMap
+
+	// The aliases that were resolved to a temporary table. A temporary table can be
+	// named like the path of a file, so the path alone does not tell which of the two an alias is.
+	temporaryTableAliases AliasMap
 }
 
 func NewNodeScope() NodeScope {
 	return NodeScope{
-		inlineTables: make(InlineTableMap),
-		aliases:      make(AliasMap),
+		inlineTables:          make(InlineTableMap),
+		aliases:               make(AliasMap),
+		temporaryTableAliases: make(AliasMap),
 	}
 }
 
 func (scope NodeScope) Clear() {
 	scope.inlineTables.Clear()
 	scope.aliases.Clear()
+	scope.temporaryTableAliases.Clear()
 }
 
 type ReferenceRecord struct {
@@ -715,6 +721,26 @@ func (rs *ReferenceScope) LoadInlineTable(ctx context.Context, clause parser.Wit
 
 func (rs *ReferenceScope) AddAlias(alias parser.Identifier, path string) error {
 	return rs.nodes[0].aliases.Add(alias, path)
+}
+
+func (rs *ReferenceScope) AddTemporaryTableAlias(alias parser.Identifier, name string) error {
+	if err := rs.nodes[0].aliases.Add(alias, name); err != nil {
+		return err
+	}
+	return rs.nodes[0].temporaryTableAliases.Add(alias, name)
+}
+
+// AliasTarget returns the table that the alias was resolved to when it was loaded.
+func (rs *ReferenceScope) AliasTarget(alias parser.Identifier) (target AliasTarget, err error) {
+	for i := range rs.nodes {
+		if target.Path, err = rs.nodes[i].aliases.Get(alias); err == nil {
+			_, e := rs.nodes[i].temporaryTableAliases.Get(alias)
+			target.IsTemporaryTable = e == nil
+			return
+		}
+	}
+	err = NewTableNotLoadedError(alias)
+	return
 }
 
 func (rs *ReferenceScope) GetAlias(alias parser.Identifier) (path string, err error) {
